@@ -44,6 +44,16 @@ def run(ctx):
             "sess:hold=0", "sess:hold=nil", "sess:keepalive-schedule-keepalives", "sess:failed-attempt-after-a-success", "step:backoff", "step:readerdrop", "step:keepalive", "sess:close-in-handshake", "sess:set-during-write", "sess:set-during-write-messages", "step:abort", "step:abort-with-pending", "step:Set", "step:Set(invalid)", "step:Close"]
     if not thorough:
         need = [k for k in need if k not in ("sess:closed",)] + []
+    # white-box comparisons are skipped (not failed) when the session's unexported
+    # representation is not the one the accessor layer knows; black-box oracles still ran
+    skipped = {k: v for k, v in stats.items() if k.startswith("whitebox_skipped:")}
+    if skipped:
+        hard = any(not k.endswith("(pipe-idle-check-by-timing)") for k in skipped)
+        need = [k for k in need if not k.startswith("step:") or k == "step:backoff"]
+        if hard and any(k.split(":", 1)[1] in ("advertised", "conn", "mu", "nextHop", "peerFBASNSupport") for k in skipped):
+            need = [k for k in need if not k.startswith("sess:set-during-write")]
+        ctx.cov["whitebox_skipped"] = skipped
+        ctx.assumptions.append("white-box step comparisons skipped on this tree (session fields not in the known representation): %s" % sorted(skipped))
     if cases and any(stats.get(k, 0) == 0 for k in need):
         raise Exception("generator degenerate: %r" % stats)
 
